@@ -48,7 +48,7 @@ CHECKS = {
    text="Seeded programs with 0-6 runners (lazy ones included) under K schedules; on the first three schedules every runner in turn fails (exhaustive per explored schedule). Oracle: every runner exactly once on success, nothing is initialised after the first runner started, contract order, a failing runner makes Run fail and no later runner is invoked.",
    note="", technique=STARTSIM + " + exhaustive runner-failure injection; oracle: event-log checker"),
  "C14": dict(cat="exploration", engine="closesim", ref="5/C14",
-   text="After a successful Run with 0-12 closers App.Close runs inside the bubble. Hook H3 parks every goroutine App.Close starts before it invokes its closer; slow closers park again inside Close(), fast ones return at once; a seed-chosen subset fails. The scheduler releases one task at a time in a seeded order. Invariants at every quiescent point: all closer goroutines exist before anything is released, a released closer is always invoked whatever the others did, Close has not returned while any closer is pending; at the end every closer ran exactly once and Close returned (bounded liveness, no wall clock). Since wave 14 the scheduler may also let seconds of simulated time (the bubble's clock) pass while closers are parked - a timer inside the container would fire - and the shutdown that follows a start which failed because a runner returned an error is judged too (runners that are closers as well).",
+   text="After a successful Run with 0-12 closers App.Close runs inside the bubble. Hook H3 parks every goroutine App.Close starts before it invokes its closer; slow closers park again inside Close(), fast ones return at once; a seed-chosen subset fails. The scheduler releases one task at a time in a seeded order. Invariants at every quiescent point: all closer goroutines exist before anything is released, a released closer is always invoked whatever the others did, Close has not returned while any closer is pending; at the end every closer ran exactly once and Close returned (bounded liveness, no wall clock). Since wave 14 the scheduler may also let seconds of simulated time (the bubble's clock) pass while closers are parked - a timer inside the container would fire - and the shutdown that follows a start which failed because a runner returned an error is judged too (runners that are closers as well). Since wave 18 also: after a start that failed on a passing fault inside a closer's initialisation the application calls App.Refresh() again on the same App and then shuts down.",
    note="synctest quiescence detection trusted", technique="deterministic simulation (closesim): App.Close in a testing/synctest bubble, closers parked at start and inside Close, seeded release order and failing subset; invariants at every quiescent point"),
  "C11": dict(cat="exploration", engine="startsim", ref="5/C11",
    text="Twin programs - every tagged field declared directly vs the same fields inside anonymous, untagged, by-value embedded structs (depth 1-3, exported and unexported carriers) - run under identical picks: same outcome, same wiring on every non-tied point, same bound configuration, same tag records. Frame fields of six kinds carry sentinels that must survive every run. 0-2 custom tag scanners (parked and interleaved inside the parallel scanning phase) must receive exactly the exported fields carrying their tag, with value and arguments.",
